@@ -313,6 +313,7 @@ func runC03(c *Ctx) {
 	c.Borrow("C09", map[string]string{"C09.prune-guard": "C03.delete-prune", "C09.select": "C03.delete-select", "C09.conditional": "C03.delete-conditional"}, "a conditional delete must unlink exactly the leaves it hands to the callback that announces them; a subtree pruned while it still holds leaves disappears from queries without a feed entry")
 	gnmiDispatch(c, a, "C03.dispatch")
 	equalArms(c, "C03.equal-sound", false)
+	deletePathTable(c, "C03.delete-path")
 	resetRemoveAnnounce(c, "C03.reset-announce")
 }
 
